@@ -526,6 +526,14 @@ func importTar(in io.ReaderAt) (*tarFile, error) {
 }
 
 func moveRec(name string, in *tarFile, out *tarFile, picked map[string]struct{}) error {
+	return moveRecFrom(name, in, out, picked, true)
+}
+
+// moveRecFrom moves the entry "name" preceded by its parent directories and its hardlink target.
+// required is true for a path that must exist (a listed path or a hardlink target) and false
+// for an ancestor directory: a tar blob doesn't always contain an entry for every parent
+// directory so the absence of it must not be treated as the absence of the requested file.
+func moveRecFrom(name string, in *tarFile, out *tarFile, picked map[string]struct{}, required bool) error {
 	name = cleanEntryName(name)
 	if name == "" { // root directory. stop recursion.
 		if e, ok := in.get(name); ok {
@@ -542,16 +550,16 @@ func moveRec(name string, in *tarFile, out *tarFile, picked map[string]struct{})
 	_, okIn := in.get(name)
 	_, okOut := out.get(name)
 	_, okPicked := picked[name]
-	if !okIn && !okOut && !okPicked {
+	if required && !okIn && !okOut && !okPicked {
 		return fmt.Errorf("file: %q: %w", name, errNotFound)
 	}
 
 	parent, _ := path.Split(strings.TrimSuffix(name, "/"))
-	if err := moveRec(parent, in, out, picked); err != nil {
+	if err := moveRecFrom(parent, in, out, picked, false); err != nil {
 		return err
 	}
 	if e, ok := in.get(name); ok && e.header.Typeflag == tar.TypeLink {
-		if err := moveRec(e.header.Linkname, in, out, picked); err != nil {
+		if err := moveRecFrom(e.header.Linkname, in, out, picked, true); err != nil {
 			return err
 		}
 	}
